@@ -137,6 +137,47 @@ def collect(ctx: Ctx, fn: Func, sc: Schema) -> list[Cmd]:
                 cmds[st.target.value.id].writes.append(Write(st.target.attr, st.value, guards + ("augmented",), st))
 
     visit(fn.node.body, ())
+    # selected-value expansion:  L = None; if a: L = A elif b: L = B; if L is not None: req.f = L; req.has_f = True
+    # is the same as writing f under each selecting guard - rewrite the writes that way before they are judged
+    sel: dict[str, list[tuple[tuple[str, ...], ast.expr]]] = {}
+
+    def scan(stmts: list[ast.stmt], guards: tuple[str, ...]) -> None:
+        for st in stmts:
+            if isinstance(st, ast.If):
+                g = guard_text(fn, st.test, aliases)
+                if g == "other:TYPE_CHECKING":
+                    continue
+                scan(st.body, guards + (g,))
+                scan(st.orelse, guards + (neg(g),))
+            elif isinstance(st, (ast.With, ast.Try)):
+                scan(st.body, guards)
+            elif isinstance(st, (ast.Assign, ast.AnnAssign)) and getattr(st, "value", None) is not None:
+                t = st.targets[0] if isinstance(st, ast.Assign) and len(st.targets) == 1 else getattr(st, "target", None)
+                if isinstance(t, ast.Name) and t.id not in fn.param_names() and isinstance(st.value, (ast.Constant, ast.Attribute, ast.Name)):
+                    sel.setdefault(t.id, []).append((guards, st.value))
+
+    scan(fn.node.body, ())
+    for cmd in list(cmds.values()) + anon:
+        out: list[Write] = []
+        for w in cmd.writes:
+            hit = next(((i, g[len("present:"):]) for i, g in enumerate(w.guards) if g.startswith("present:") and g[len("present:"):] in sel and len(sel[g[len("present:"):]]) > 1), None)
+            if hit is None:
+                out.append(w)
+                continue
+            i, L = hit
+            pre = w.guards[:i]
+            ok = True
+            exp: list[Write] = []
+            for ga, va in sel[L]:
+                if isinstance(va, ast.Constant) and va.value is None:
+                    continue
+                if ga[: len(pre)] != pre:
+                    ok = False
+                    break
+                val = va if (isinstance(w.value, ast.Name) and w.value.id == L) else w.value
+                exp.append(Write(w.field, val, pre + ga[len(pre):] + w.guards[i + 1:], w.node))
+            out.extend(exp if ok and exp else [w])
+        cmd.writes = out
     return list(cmds.values()) + anon
 
 
